@@ -120,3 +120,10 @@ Fixpoint failing_indices_from {A} (f : A -> bool) (l : list A) (i : nat) : list 
   | x :: xs => if f x then failing_indices_from f xs (S i) else i :: failing_indices_from f xs (S i)
   end.
 Definition failing_indices {A} (f : A -> bool) (l : list A) : list nat := failing_indices_from f l 0.
+
+(* states reached by the model along a history *)
+Fixpoint history_states (c : circuit) (os : list op) : list circuit :=
+  match os with
+  | [] => []
+  | o :: os' => match step c o with Ok c' => c' :: history_states c' os' | Err _ => [] end
+  end.
